@@ -383,7 +383,9 @@ def main():
     files = {}
     for rel in spec.get('files', []):
         files[rel] = file_hash(os.path.join(REPO, rel))
-    level = 'model_checking' if exhaustive or violations else 'exploration'
+    # the level is the one claimed for the property in MANIFEST.json (SPEC['level'], default model_checking); whether THIS run
+    # was exhaustive inside its bounds is recorded in coverage.exhaustive / coverage.inconclusive
+    level = spec.get('level', 'model_checking')
     ev = {
         'property_id': prop,
         'tier': tier,
